@@ -344,6 +344,12 @@ func corpus(pts []mc.PVal) [][]byte {
 			}
 		}
 		add(cat([]byte{4}, yb, xb))
+		// the valid encodings without their prefix byte (a bare X || Y is well-formed coordinate data of the right
+		// point, but not a SEC 1 encoding) and with the prefix doubled
+		add(cat(xb, yb))
+		add(xb)
+		add(cat([]byte{4, 4}, xb, yb))
+		add(cat([]byte{c[0], c[0]}, xb))
 		// special coordinate values in either slot
 		for _, sv := range special {
 			sb := ref.B32(sv)
